@@ -58,6 +58,10 @@ METAS = [  # (nu record, model pairs key -> JSON text)
     (None, None), (None, None), ('{k: "v"}', [["k", '"v"']]), ('{n: 1, s: "x y"}', [["n", "1"], ["s", '"x y"']]),
     ('{handler_id: "zzz"}', [["handler_id", '"zzz"']]), ('{frame_id: "me", k: true}', [["frame_id", '"me"'], ["k", "true"]])]
 
+# a meta nested so deep that the frame carrying it cannot be read back: the store refuses to keep such a frame (C12), so the
+# call that wrote it fails as a whole (C15) - unless the frame is ephemeral and never stored
+DEEP_META = ('{d: (0..130 | reduce -f 0 {|it, acc| [$acc]})}', [["d", "[" * 131 + "0" + "]" * 131]])
+
 OUT_TTLS = [None, None, None, "forever", "ephemeral", "time:600000"]
 
 
@@ -65,7 +69,7 @@ BOGUS_CTX = "0123456789abcdefghijklmno"      # a well-formed id that registers n
 
 
 def nu_str(s):
-    return '"' + s.replace("\\", "\\\\").replace('"', '\\"') + '"'
+    return '"' + s.replace("\\", "\\\\").replace('"', '\\"').replace("\x00", "\\u{0}") + '"'
 
 
 def render_append(a, ctx_text):
@@ -91,6 +95,12 @@ def render_rule_body(rule, ctx_text):
     if rule.get("slow_ms"):
         lines.append("sleep %dms" % rule["slow_ms"])
     apps = [render_append(a, ctx_text) for a in rule["appends"]]
+    if rule.get("fail") and rule.get("fail_lazy"):
+        # the closure fails while its result is being produced: the error arrives as (an item of) the returned value -
+        # a closure error all the same: nothing of the call is emitted, the instance stops
+        lines += apps
+        lines.append(rule["fail_lazy"])
+        return "\n      ".join(lines)
     if rule.get("fail"):
         k = min(rule.get("fail_at", 0), len(apps))
         apps = apps[:k] + ['error make {msg: "boom"}'] + apps[k:]
@@ -263,16 +273,17 @@ class Gen:
         r = self.r
         apps = []
         for _ in range(r.choice([0, 0, 1, 1, 2, 3])):
-            m = r.choice(METAS)
+            m = r.choice(METAS) if r.random() > 0.05 else DEEP_META
             # now and then an output the store refuses outside the zero context (`xs.context`), and a --context naming a
             # well-formed id that is no context at all: the handler's own context is what counts
-            apps.append({"topic": r.choice(["out1", "out2", "o.x"] * 6 + ["xs.context"]), "meta_nu": m[0], "meta": m[1],
+            apps.append({"topic": r.choice(["out1", "out2", "o.x"] * 6 + ["xs.context", "n\x00l"]), "meta_nu": m[0], "meta": m[1],
                          "ttl": r.choice(OUT_TTLS) if history_ok else r.choice(OUT_TTLS + ["head:1", "head:2"]),
                          "ctx_ref": r.choice([None, None, None, r.randint(0, self.nctx), "bogus"]),
                          "content": r.choice([None, "c", "c{n}", "x y"])})
         ret = r.choice(RETS + SCOPE_PROBES)
         fail = r.random() < 0.12
-        return {"topic": topic, "appends": apps, "ret_nu": ret[0], "ret": ret[1], "fail": fail,
+        lazy = r.choice([None, None, '[1 2] | each {|x| error make {msg: "boom"}}', '[1 2] | each {|x| error make {msg: "boom"}} | first'])
+        return {"topic": topic, "appends": apps, "ret_nu": ret[0], "ret": ret[1], "fail": fail, "fail_lazy": lazy if fail else None,
                 "fail_at": r.randint(0, 3), "slow_ms": r.choice([0, 0, 0, 20, 40])}
 
     def handler_spec(self, history_ok, name="h"):
@@ -1008,6 +1019,11 @@ def analyse(sc, res, drv):
                     if any(isinstance(t, str) and t.startswith("id:") and t[3:].isdigit() and int(t[3:]) in hist_ids for t in extra) \
                             and "C17" not in props:
                         props.append("C17")
+                # a call the model fails as a whole (its only output for that trigger is the stop announcement with the error)
+                # and for which the implementation emitted frames: the call was not all-or-nothing (C15)
+                failed = {dict(x[2]).get("frame_id") for x in want_o if x[0] == st["name"] + ".unregistered" and "error" in dict(x[2])}
+                if any(dict(x[2]).get("frame_id") in failed and x[0] != st["name"] + ".unregistered" for x in actual) and "C15" not in props:
+                    props.append("C15")
                 # the stop announcements themselves differ: an instance stopped that had no reason to (or did not stop,
                 # or announced it differently) - that is the lifecycle (C16), whatever it did to the invocations
                 un = st["name"] + ".unregistered"
